@@ -115,10 +115,13 @@ def _one_run(job):
         # ---- a survey with a single source-frequency pair: compute, replace
         # the model in place (no clean), compute again: the second run gives
         # the new model's results whatever the execution mode
+        # (one task per batch: not part of the recorded N = 4 trace)
+        _mp.process_map = orig_pm
         p1 = simreplay.Problem(dict(one=True), seed=5)
         s1 = p1.simulation(0, os.path.join(tmp, "fd1") if file_mode else None,
                            "same")
         s1.max_workers = maxw
+        s1.verb = -1
         s1.compute()
         res["one_a"] = s1.data.synthetic.data.copy()
         s1.model = p1.model(1)
